@@ -9,8 +9,10 @@ EXPLANATION = (
 def check(ctx, prog):
     bounds.rule_extents(ctx, prog)
     bounds.rule_narrow_scratch(ctx, prog)
+    bounds.rule_clamp_order(ctx, prog)
     scratch.rule_scratch(ctx, prog)
     scratch.rule_call_chains(ctx, prog)
+    scratch.rule_example_kernels(ctx, prog)
     capacity.rule_stack_height(ctx, prog, want=("R-SHAPES", "R-CAPACITY"))
     search.rule_solve_one(ctx, prog, want=("R-CAPACITY",))
     capacity.rule_probe_guard(ctx, prog)
